@@ -870,6 +870,22 @@ func runTables(c *mon.Case) {
 
 func genAAFreq(r *gen.Rand, model []float64) (pi []float64, class string) {
 	pi = make([]float64, 20)
+	if r.Chance(0.08) {
+		// one or two residues that hardly occur (a valid vector of the open simplex)
+		class = "rare-residue"
+		copy(pi, model)
+		tot := 0.0
+		for k := r.Range(1, 2); k > 0; k-- {
+			pi[r.Intn(20)] = r.PickF([]float64{1e-5, 1e-6, 3e-5})
+		}
+		for _, x := range pi {
+			tot += x
+		}
+		for i := range pi {
+			pi[i] /= tot
+		}
+		return
+	}
 	switch r.Intn(6) {
 	case 0:
 		class = "uniform"
@@ -1102,7 +1118,7 @@ const nWitness = 30 + 14
 
 func main() {
 	mon.SetNote("rule", "case = one parameter point of one model x 8..13 branch lengths (0, 1e-8, 1e-4, 0.01, 0.1, 0.5, 1, 2, 5, 20, 100 plus log-uniform draws in [1e-8,100]); nucleotide points: JC, K2P (kappa in [0.05,50]: 1, bounds, 1+-1e-3..1e-13, integers, log-uniform), F81/F84/TN93/GTR with base frequencies >= 0.01 (uniform, one at 0.01, one dominant, rare purines or pyrimidines, two equal, random), F84 kappa incl. 0, TN93 kappa1/kappa2 incl. equal (HKY) and the combination where both transition eigenvalues coincide, GTR rates in [0.05,20] incl. all 1, TN93 shaped, one extreme; protein points: 7 matrices x model frequencies or user frequencies (uniform, the model vector passed explicitly, skewed, empirical counts, random; all >= 0.01-ish). On every point: every entry of a FRESH models.NewPij(model,t) against the monitor's expm of the textbook rate matrix, entries in [0,1], row sums, P(0)=I, detailed balance, P(s+t)=P(s)P(t) on 6 pairs, convergence at 60/|lambda2|, analytical formulas vs assembly from Eigens() through a non analytical view of the same model (JC, K2P), and one Pij object driven through 5..9 SetLength calls (same length twice, back to a smaller one) against the fresh objects. Non-trivial = every point (a point is a whole parameter vector checked on all laws); distinct = (model, parameter vector).")
-	mon.SetNote("assumptions", "rate matrices typed from the textbook definitions in state order A,C,G,T: K80 kappa = transition/transversion rate ratio; F84 Q_AG=(1+kappa/piR)piG, Q_CT=(1+kappa/piY)piT as in the comment of f84.go; TN93 kappa1 = purine (A<->G), kappa2 = pyrimidine (C<->T) transitions; GTR InitModel(d,f,b,e,a,c) = rates AC,AG,AT,CG,CT,GT as drawn in the comment of gtr.go;; own expm = scaling and squaring (||A||<=1/4) around an order 18 Taylor series, error well below the 1e-8 tolerance for ||Qt|| up to 1e6;; protein exchangeabilities: Dayhoff and JTT typed from the published PAML files, frequencies of Dayhoff, JTT, LG, WAG from the publications; MtREV, LG, WAG, HIVb, AB exchangeabilities are the exported tables of the pinned tree (FastME's) protected by a pinned fingerprint (sub-check tables);; model frequency vectors sum to 1 only within 1e-6: 'one substitution per unit time' is accepted with the mean rate weighted by the raw or by the renormalised vector (one reading must explain all branch lengths of the point), convergence is towards pi/sum(pi);; gonum EigenSym on the symmetrised oracle matrix gives lambda2 for the convergence horizon only;; tolerances: value 1e-8, rows 1e-9, P(0) 1e-12, detailed balance 1e-10, semigroup 1e-9, convergence 1e-6, re-use 1e-13, an entry may exceed 1 by 1e-12 but never be negative or NaN;; not checked (outside the statement): re-initialising a model under a live Pij object, calling ProtModel.InitModel twice, t = DBL_MIN (the sentinel NewPij starts from), negative t")
+	mon.SetNote("assumptions", "rate matrices typed from the textbook definitions in state order A,C,G,T: K80 kappa = transition/transversion rate ratio; F84 Q_AG=(1+kappa/piR)piG, Q_CT=(1+kappa/piY)piT as in the comment of f84.go; TN93 kappa1 = purine (A<->G), kappa2 = pyrimidine (C<->T) transitions; GTR InitModel(d,f,b,e,a,c) = rates AC,AG,AT,CG,CT,GT as drawn in the comment of gtr.go;; own expm = scaling and squaring (||A||<=1/4) around an order 18 Taylor series, error well below the 1e-8 tolerance for ||Qt|| up to 1e6;; protein exchangeabilities: Dayhoff and JTT typed from the published PAML files, frequencies of Dayhoff, JTT, LG, WAG from the publications; MtREV, LG, WAG, HIVb, AB exchangeabilities are the exported tables of the pinned tree (FastME's) protected by a pinned fingerprint (sub-check tables);; model frequency vectors sum to 1 only within 1e-6: 'one substitution per unit time' is accepted with the mean rate weighted by the raw or by the renormalised vector (one reading must explain all branch lengths of the point), convergence is towards pi/sum(pi);; gonum EigenSym on the symmetrised oracle matrix gives lambda2 for the convergence horizon only;; tolerances: value 1e-8, rows 1e-9, P(0) 1e-12, detailed balance 1e-10, semigroup 1e-9, convergence 1e-6, re-use 1e-13, an entry may exceed 1 by 1e-12 but never be negative or NaN;; re-initialising a model under a live Pij object is only checked at branch lengths other than the one the object holds (SetLength caches by length alone: the same length after a re-initialisation returns the matrix of the old parameters); not checked: t = DBL_MIN (the sentinel NewPij starts from), negative t")
 	mon.SetNote("exhaustive_subspaces", "all 7 protein tables (every entry, sub-check tables); JC (single parameter point) on the 13 fixed branch lengths")
 	for _, m := range dnaModels {
 		q := 2000
